@@ -1,4 +1,4 @@
-(* GENEQ lemma=gen_CSRRS_init_eq requires=gen_CSRRS_init_rd,gen_CSRRS_init_csr,gen_CSRRS_init_rs1 properties=C01,C02 *)
+(* GENEQ lemma=gen_CSRRS_init_eq requires=gen_CSRRS_init_rd,gen_CSRRS_init_csr,gen_CSRRS_init_rs1 properties=C01 *)
 From ArchSimGenEq Require Import GenEqTac.
 From ArchSim Require Import Model.RV Model.RVSplit.
 From ArchSimGen Require Import GenRVTypes GenRV.
